@@ -351,3 +351,95 @@ func ruleTypedNil(c *Ctx, rule string, fns []*FuncInfo) {
 	}
 	c.Stats[rule+" sites"] = n
 }
+
+// ---- P10 -----------------------------------------------------------------
+
+// ruleNoDeleteFromTotalMap: a map field with pointer (or interface) values that
+// is read as if every looked-up key were present — `x.f[k].M()`, no comma-ok —
+// is a table its readers treat as total. Nothing in the module deletes from
+// such a field or stores nil into it: the reader would dereference nil.
+func ruleNoDeleteFromTotalMap(c *Ctx, rule string) {
+	p := c.P
+	c.Rule(rule, "a map field whose lookups are dereferenced unchecked (x.f[k].M() without comma-ok) is never deleted from and never receives nil: the keys its readers rely on stay present")
+	type use struct {
+		fn   *FuncInfo
+		node ast.Node
+	}
+	total := map[*types.Var]use{}
+	for _, fn := range p.live() {
+		if fn.Decl.Body == nil {
+			continue
+		}
+		info := fn.Info()
+		ast.Inspect(fn.Decl.Body, func(k ast.Node) bool {
+			sel, ok := k.(*ast.SelectorExpr)
+			if !ok {
+				return true
+			}
+			ix, ok := ast.Unparen(sel.X).(*ast.IndexExpr)
+			if !ok {
+				return true
+			}
+			fsel, ok := ast.Unparen(ix.X).(*ast.SelectorExpr)
+			if !ok {
+				return true
+			}
+			fv, _ := info.ObjectOf(fsel.Sel).(*types.Var)
+			if fv == nil || !fv.IsField() || fv.Pkg() == nil || !strings.HasPrefix(fv.Pkg().Path(), modPath) || strings.Contains(fv.Pkg().Path(), "/pkg/apis/") {
+				return true
+			}
+			mt, isMap := fv.Type().Underlying().(*types.Map)
+			if !isMap {
+				return true
+			}
+			switch mt.Elem().Underlying().(type) {
+			case *types.Pointer, *types.Interface:
+			default:
+				return true
+			}
+			if _, seen := total[fv]; !seen {
+				total[fv] = use{fn, k}
+			}
+			return true
+		})
+	}
+	var fields []*types.Var
+	for f := range total {
+		fields = append(fields, f)
+	}
+	sort.Slice(fields, func(i, j int) bool { return fields[i].Pos() < fields[j].Pos() })
+	for _, f := range fields {
+		var bad []string
+		for _, fn := range p.AllFuncs() {
+			if fn.Decl.Body == nil || p.excludedFile(fn.File) {
+				continue
+			}
+			info := fn.Info()
+			isField := func(x ast.Expr) bool {
+				s, ok := ast.Unparen(x).(*ast.SelectorExpr)
+				return ok && info.ObjectOf(s.Sel) == f
+			}
+			ast.Inspect(fn.Decl.Body, func(k ast.Node) bool {
+				switch t := k.(type) {
+				case *ast.CallExpr:
+					if call, ok := isBuiltinCall(info, t, "delete"); ok && len(call.Args) == 2 && isField(call.Args[0]) {
+						bad = append(bad, "delete at "+p.Pos(t)+" ("+fn.Key()+")")
+					}
+					if call, ok := isBuiltinCall(info, t, "clear"); ok && len(call.Args) == 1 && isField(call.Args[0]) {
+						bad = append(bad, "clear at "+p.Pos(t)+" ("+fn.Key()+")")
+					}
+				case *ast.AssignStmt:
+					for i, l := range t.Lhs {
+						if ix, ok := ast.Unparen(l).(*ast.IndexExpr); ok && isField(ix.X) && len(t.Rhs) == len(t.Lhs) && info.Types[ast.Unparen(t.Rhs[i])].IsNil() {
+							bad = append(bad, "nil stored at "+p.Pos(t)+" ("+fn.Key()+")")
+						}
+					}
+				}
+				return true
+			})
+		}
+		u := total[f]
+		c.Check(len(bad) == 0, rule, "entries of "+f.Name()+" (read unchecked in "+u.fn.Name+") are never removed", p.Pos(u.node), u.fn.Key(), "no delete / clear / nil store on the field", strings.Join(bad, "; "))
+	}
+	c.Stats[rule+" fields"] = len(fields)
+}
